@@ -1553,6 +1553,9 @@ pub fn firstchar_program(rng: &mut Rng) -> Program {
 /// A loop over a word of two or three letters followed by a word that overlaps it: (ab)*bc, (aba)+ab, (ab){1,2}b ...
 /// (a match of the whole pattern may start in the middle of what looks like an iteration of the loop)
 pub fn loopword_program(rng: &mut Rng) -> Program {
+    if rng.chance(1, 3) {
+        return starhead_program(rng);
+    }
     let letters = [0x61u32, 0x62, 0x63];
     let word = |rng: &mut Rng, n: usize| -> Vec<u32> {
         (0..n)
@@ -1651,4 +1654,39 @@ pub fn joint_program(rng: &mut Rng) -> Program {
         _ => ops.push(Op::Comp(core)),
     }
     Program { points: vec![0x61, 0x62, 0x63, 0x78, 0x7a], ops }
+}
+
+/// Sigma* (or x*) in front of alternatives of different lengths where a later-starting occurrence of one ends before
+/// the first-starting occurrence of another: Sigma*.(abb + b), Sigma*.(a c* d + c), also with the star at the end
+pub fn starhead_program(rng: &mut Rng) -> Program {
+    let letters = [0x61u32, 0x62, 0x63];
+    let mut ops: Vec<Op> = Vec::new();
+    let n = 2 + rng.usize(2);
+    let w1: Vec<u32> = (0..n).map(|_| letters[rng.usize(2)]).collect();
+    // the second alternative: a proper suffix (or an inner factor) of the first
+    let from = 1 + rng.usize(n - 1);
+    let w2: Vec<u32> = w1[from..].to_vec();
+    ops.push(Op::Str(w1));
+    ops.push(Op::Str(w2));
+    let mut alt = {
+        ops.push(Op::Union(0, 1));
+        2
+    };
+    if rng.chance(1, 3) {
+        // x y* z + y
+        ops.push(Op::Char(0x61));
+        ops.push(Op::Char(0x63));
+        ops.push(Op::Star(4));
+        ops.push(Op::Char(0x62));
+        ops.push(Op::ConcatList(vec![3, 5, 6]));
+        ops.push(Op::Union(7, 4));
+        alt = 8;
+    }
+    ops.push(if rng.chance(2, 3) { Op::Full } else { Op::Star(0) });
+    let star = ops.len() - 1;
+    match rng.below(3) {
+        0 | 1 => ops.push(Op::Concat(star, alt)),
+        _ => ops.push(Op::ConcatList(vec![star, alt, star])),
+    }
+    Program { points: letters.to_vec(), ops }
 }
